@@ -361,6 +361,13 @@ def rule_stdlib_corner_cases(chk):
                          "value (a traceback of chained exceptions, text with an empty line) is printed without the field's gutter -- it no longer reads as part of that field" % unparse(x)[:60])
     if not n:
         chk.ok("C20.complete", "prettyprint:no-lossy-stdlib-text-helper", m.relpath, "no textwrap.indent call in prettyprint.py")
+    # str.rstrip / lstrip / strip take a SET of characters, not a suffix / prefix
+    for x in ast.walk(m.tree):
+        if isinstance(x, ast.Call) and isinstance(x.func, ast.Attribute) and x.func.attr in ("rstrip", "lstrip", "strip") and len(x.args) == 1 and isinstance(x.args[0], ast.Constant) \
+                and isinstance(x.args[0].value, str) and len(x.args[0].value) > 1 and x.args[0].value.strip():
+            chk.bad("C20.complete", "prettyprint:%s-of-a-multi-character-string" % x.func.attr, "%s:%d" % (m.relpath, x.lineno),
+                    "`%s` removes any run of the CHARACTERS %s, not that string as a suffix/prefix: it keeps eating into the value itself (a rendered time ending in 0 or ':' loses digits -- "
+                    "`15:09:10+00:00` becomes `15:09:1`) (str.removesuffix / removeprefix remove the string)" % (unparse(x)[:50], sorted(set(x.args[0].value))))
 
 
 def rule_filter(chk):
